@@ -1,6 +1,6 @@
 #!/bin/bash
 # usage: tools/sweep.sh [tier] [seed...]  -- runs every claimed check; prints one line per check
-cd /verif
+cd "$(dirname "$(readlink -f "$0")")/.."
 TIER=${1:-quick}; shift
 SEEDS=${@:-1}
 for s in $SEEDS; do
